@@ -255,6 +255,20 @@ CLAIMS: dict[str, tuple[str, str, str, str]] = {
         'after a history, byte-exact serving of uploads. Trusted: SQLAlchemy cascade semantics as '
         'documented; typed-receiver resolution of the call graph.',
         'DESIGN.md section 4, C17'),
+    'C08': (
+        'abstract interpretation of DashTiming.__init__ + calculate_live_params in a difference-bound '
+        '(zone) domain with calendar-floor ghosts, trace-partitioned per path',
+        'The clauses of C08 that are difference constraints, on every path through the live timing '
+        'code (276 paths): availabilityStartTime <= now; availabilityStartTime <= publishTime <= now on '
+        'a whole second; 0 <= timeShiftBufferDepth <= elapsedTime == now - availabilityStartTime; '
+        'firstAvailableTime == elapsedTime - timeShiftBufferDepth >= 0; every symbolic start value '
+        'is >= 60 s old; with a period p > 0 publishTime is availabilityStartTime + int(elapsed//p)*p; '
+        'no divisor can be zero; parser and branch table agree on the symbolic values.',
+        'Axioms: wall clock >= 2020-01-01Z; explicit start <= now; depth/mup/leeway are int or None; '
+        'segment_duration, timescale >= 1; calendar spans. Not decided: publishTime monotone in now, '
+        'lag < p + 1 s, same instant within a UTC day (two-run / three-variable clauses). '
+        'Trusted: CPython ast, the transfer functions of sa/timealg.py.',
+        'DESIGN.md section 4, C08'),
     'C20': (
         'linear normal forms + must-fact data-flow + zone-domain proof over BufferedReader',
         'Window discipline of BufferedReader for every operation sequence: each absolute position '
@@ -277,9 +291,6 @@ NOT_APPLICABLE: dict[str, str] = {
     'C02': 'Exact tfdt / sequence / duration values and A/V alignment after N loops are modular '
            'arithmetic over per-track timescales; only field widths (C04) are visible in code '
            'shape, which is far weaker than the property.',
-    'C08': 'All clauses are inequalities between calendar-dependent datetime values (day/month/'
-           'year roll-over, quantised publishTime); a rule on the shape of the back-off branches '
-           'would also fire on behaviour-preserving rewrites, so none is armed.',
 }
 
 PENDING = 'checker for this property is not built yet in this session (see DESIGN.md section 4)'
